@@ -199,6 +199,13 @@ def raw_abort_scenario(given, where, rng):
         rsp = cmdset.write([(cmdset.TAG_AFF_SOP_CLASS, cmdset.ui('1.2.840.10008.1.1')), (cmdset.TAG_COMMAND_FIELD, cmdset.us(0x8030)),
                             (cmdset.TAG_MSG_ID_RSP, cmdset.us(1)), (cmdset.TAG_DS_TYPE, cmdset.us(0x0101 if where != 'command-announcing-data' else 1)),
                             (cmdset.TAG_STATUS, cmdset.us(0))])
+        if where == 'response-abort-close-in-one-segment':
+            # the complete response and the A-ABORT leave in one write and the peer closes at once: the abort sits
+            # behind another PDU in the requestor's buffer when the end of the stream is seen
+            R.read_pdu(sock)                                   # the second C-ECHO-RQ
+            sock.sendall(W.enc_pdu({'t': 4, 'pdvs': [{'ctx': 1, 'val': b'\x03' + rsp}]}) + W.enc_pdu({'t': 7, 'source': given[0], 'reason': given[1]}))
+            sock.close()
+            return
         if where == 'partial-command':
             sock.sendall(W.enc_pdu({'t': 4, 'pdvs': [{'ctx': 1, 'val': b'\x01' + rsp[:20]}]}))
         elif where == 'command-announcing-data':
@@ -216,7 +223,17 @@ def raw_abort_scenario(given, where, rng):
         try:
             with cl.request_association(REMOTE) as assoc:
                 obs['entered'] = True
-                assoc.get_scu(sc.VERIFICATION_SOP_CLASS)(1)
+                if where == 'response-abort-close-in-one-segment':
+                    # two requests are outstanding; the first receive gets the response, the second the abort
+                    for mid in (1, 2):
+                        msg = dm.CEchoRQMessage()
+                        msg.message_id = mid
+                        msg.sop_class_uid = sc.VERIFICATION_SOP_CLASS
+                        assoc.send(msg, 1)
+                    assoc.receive()
+                    assoc.receive()
+                else:
+                    assoc.get_scu(sc.VERIFICATION_SOP_CLASS)(1)
         except exceptions.AssociationAbortedError as e:
             obs['reqErr'] = {'type': 'AssociationAbortedError', 'f': [e.source, e.reason_diag]}
         except Exception as e:          # noqa
@@ -340,7 +357,7 @@ def main(tier='quick'):
             plan.append(('req-abort', (0, r), pl))
         for pl in ('abort-before-response', 'abort-after-response'):
             plan.append(('acc-abort', (2, r), pl))
-        for pl in ('partial-command', 'command-announcing-data', 'instead-of-response'):
+        for pl in ('partial-command', 'command-announcing-data', 'instead-of-response', 'response-abort-close-in-one-segment'):
             plan.append(('raw-acc-abort', (rng.choice([0, 2]), r), pl))
     plan.append(('acc-release', (), None))
     plan.append(('stop-with-silent-peer', (), None))
